@@ -7,6 +7,7 @@ pair the code produces must be one the spec allows from some candidate spec stat
 """
 import collections
 import json
+import resource
 import signal
 
 from . import tlc
@@ -43,16 +44,49 @@ def wrap(fn):
     return inner
 
 
+MEMORY_HEADROOM = 2 << 30       # an operation of the code under test may allocate this much before it is stopped
+
+
+def _address_space():
+    try:
+        with open("/proc/self/statm") as fh:
+            return int(fh.read().split()[0]) * resource.getpagesize()
+    except Exception:       # noqa
+        return None
+
+
 def guarded(fn, seconds=2.0):
+    """Run one operation of the code under test under a time limit and a memory limit: a non-terminating operation is a Timeout
+    (a result the specification does not know), and one that allocates without bound (e.g. list() of an iteration that never ends)
+    gets a MemoryError instead of taking the whole check down."""
     def h(*a):
         raise Timeout()
     old = signal.signal(signal.SIGALRM, h)
+    soft, hard = resource.getrlimit(resource.RLIMIT_AS)
+    cur = _address_space()
+    limited = False
+    if cur is not None:
+        want = cur + MEMORY_HEADROOM
+        if hard == resource.RLIM_INFINITY or want <= hard:
+            try:
+                resource.setrlimit(resource.RLIMIT_AS, (want, hard))
+                limited = True
+            except (ValueError, OSError):
+                pass
     signal.setitimer(signal.ITIMER_REAL, seconds)
     try:
-        return fn()
+        try:
+            return fn()
+        except MemoryError:
+            raise Timeout()         # unbounded allocation: the operation does not come to an end
     finally:
         signal.setitimer(signal.ITIMER_REAL, 0)
         signal.signal(signal.SIGALRM, old)
+        if limited:
+            try:
+                resource.setrlimit(resource.RLIMIT_AS, (soft, hard))
+            except (ValueError, OSError):
+                pass
 
 
 def safe_obs(adapter, w):
